@@ -618,16 +618,16 @@ type c16Malformed struct {
 func genC16Malformed(t *rapid.T) c16Malformed {
 	base := genC16Parts(t)
 	forged := []H{
-		hx(new(big.Int).SetUint64(^uint64(0))),        // 2^64-1 (== -1 as int64)
-		hx(new(big.Int).Lsh(one, 63)),                 // 2^63
-		hx(add(new(big.Int).Lsh(one, 63), 5)),         // 2^63+5
-		hx(new(big.Int).Lsh(one, 64)),                 // 2^64 (truncates to 0)
-		hx(add(new(big.Int).Lsh(one, 64), 1)),         // 2^64+1 (truncates to 1)
-		hx(big.NewInt(cmt.MaxPartSize + 1)),           // just above the cap
-		hx(big.NewInt(cmt.MaxPartSize)),               // at the cap, not enough data
-		hx(new(big.Int).Lsh(one, 200)),                // huge
-		hx(big.NewInt(6)), hx(big.NewInt(100)),        // more than available
-		hx(new(big.Int).SetUint64(1<<63 - 1)),         // MaxInt64: position + length overflows
+		hx(new(big.Int).SetUint64(^uint64(0))), // 2^64-1 (== -1 as int64)
+		hx(new(big.Int).Lsh(one, 63)),          // 2^63
+		hx(add(new(big.Int).Lsh(one, 63), 5)),  // 2^63+5
+		hx(new(big.Int).Lsh(one, 64)),          // 2^64 (truncates to 0)
+		hx(add(new(big.Int).Lsh(one, 64), 1)),  // 2^64+1 (truncates to 1)
+		hx(big.NewInt(cmt.MaxPartSize + 1)),    // just above the cap
+		hx(big.NewInt(cmt.MaxPartSize)),        // at the cap, not enough data
+		hx(new(big.Int).Lsh(one, 200)),         // huge
+		hx(big.NewInt(6)), hx(big.NewInt(100)), // more than available
+		hx(new(big.Int).SetUint64(1<<63 - 1)), // MaxInt64: position + length overflows
 		hx(new(big.Int).SetUint64(1<<63 - 2)), hx(new(big.Int).SetUint64(1<<63 - 3)), hx(new(big.Int).SetUint64(1<<63 - 9)),
 		hx(new(big.Int).SetUint64(1 << 62)), hx(new(big.Int).SetUint64(1<<62 + 1<<61)),
 	}
@@ -769,14 +769,13 @@ func TestC16BuilderCaps(t *testing.T) {
 	_ = reflect.DeepEqual
 }
 
-
 // --- framing bytes appearing literally inside elements: constructions that collide under any framing
 // that omits the delimiter, the per-element length, or the last element's suffix.
 
 type c16Inject struct {
-	Prefix []B
+	Prefix  []B
 	A, X, Y B
-	Form   string
+	Form    string
 }
 
 func genC16Inject(t *rapid.T) c16Inject {
@@ -870,7 +869,6 @@ func TestC16HashFramingInjection(t *testing.T) {
 	r := ev.New(t, "C16")
 	ev.Drive(t, r, genC16Inject, runC16Inject)
 }
-
 
 // cmtNew: the library's own commitment function (the deviator uses it like everybody else).
 func cmtNew(r *big.Int, vals []*big.Int) *cmt.HashCommitDecommit {
